@@ -21,6 +21,8 @@ PYINC = '/root/.pyenv/versions/3.11.7/include/python3.11'
 
 def compile_family(opts, errline):
     """root-cause key of a compile failure: by option family + normalised first error"""
+    if 'forbids casting to an array type' in errline and '-python' in opts:
+        return 'python-array-parameter'
     e = re.sub(r'[\w./-]+\.(cxx|h):\d+:\d+: ', '', errline)
     e = re.sub(r'‘[^’]*’', '‘…’', e)
     e = re.sub(r'\d+', 'N', e)
